@@ -28,6 +28,8 @@ def run_case(ctx, case):
         sb = curve_state(cb)
         rec.case(case, nontrivial=nontrivial_kv(A[0]) or nontrivial_kv(B[0]))
         rec.count("operands", ("rat" if A[2] else "poly") + "-" + ("rat" if B[2] else "poly"))
+        if (A[0][0], A[0][-1]) == (B[0][0], B[0][-1]):
+            impl(lambda: BINOPS[op](float_twin(*A), float_twin(*B)))      # float data first (cross-call caches)
         r = impl(lambda: BINOPS[op](ca, cb))
         if curve_state(ca) != sa or curve_state(cb) != sb:
             rec.violation("operator %s modified an operand" % op, case)
